@@ -51,7 +51,7 @@ register("C05", "exploration",
 register("C04", "exploration",
          "Bounded: miter contract (inputs = tied startpoints, output sat, both copies faithful, ties respected, sat == some compared endpoint differs under EVERY consistent valuation, every agreeing pair of valuations present, solve(m,{sat:1}) False iff no difference) on the real function.",
          "oracle = vlib.oracle; scope in evidence.bound",
-         explanation="bounded stand-in of the miter contract")
+         proof=True, explanation="bounded stand-in of the miter contract")
 
 register("C08", "exploration",
          "Bounded: model_count == number of startpoint valuations extending to a consistent valuation with the assumptions; signal_probability == exact fraction; the DIMACS file handed to `approxmc` (vendored exact projected counter with independent parser) has exactly that many projected models.",
@@ -77,7 +77,7 @@ register("C13", "exploration",
          "Bounded: generated adders/muxes/popcounts are simulated (independent simulator) against integer arithmetic exhaustively for small widths and on random vectors up to width 64; clog2 against integer bit_length on all small n and around every power of two up to 2^80; bit helpers round-trip; every block lint-clean.",
          "oracle = integer arithmetic + vlib.oracle.simulate; scope in evidence.bound",
          hashseeds={"quick": 2, "thorough": 4},
-         explanation="bounded stand-in of the C13 contracts")
+         proof=True, explanation="bounded stand-in of the C13 contracts")
 
 register("C10", "exploration",
          "Bounded: ternary(c) is simulated under every 0/1/X input pattern and both binary fillings of each X; mapping[n]==1 iff Kleene evaluation gives X, else n carries the Kleene value; c is contained unchanged; result lint-clean with exactly the inputs and their companions free.",
